@@ -56,6 +56,15 @@ extern "C" void harness_main()
 #elif T == 9    /* define used inside a macro body and as a macro argument; register-like identifier argument */
   p = cat3(p, ".define TEN 10\n.macro MV(r, v)\nmov.w #v, r\n.endm\nMV(r5, ", A, ")\nMV(r6, TEN)\n");
   q = cat3(q, "mov.w #", A, ", r5\nmov.w #10, r6\n");
+#elif T == 11   /* parameter names that are prefixes of one another, longer name first */
+  p = cat3(p, ".macro PUT(val, v)\n.db val, v\n.dc16 v * 256 + val\n.endm\nPUT(", A, ", ", B, ")\n");
+  q = cat3(q, ".db ", A, ", ", B, "\n");
+  q = cat3(q, ".dc16 ", B, " * 256 + ", A, "\n");
+#elif T == 12   /* three prefix-related names in both orders, plus a body identifier that is a prefix of a parameter */
+  p = cat3(p, ".define count 7\n.macro Q(p10, p1, p)\n.db p, p1, p10, count\n.endm\n.macro R(c, cnt)\n.db cnt, c\n.endm\nQ(", A, ", ", B, ", ", C);
+  p = cat3(p, ")\nR(", C, ", ", A, ")\n");
+  q = cat3(q, ".db ", C, ", ", B, ", ", A, ", 7\n");
+  q = cat3(q, ".db ", A, ", ", C, "\n");
 #elif T == 10   /* character argument */
   p = vp_append(p, ".define CH(x) x\n.db CH('A'), CH(','), CH(')')\n");
   q = vp_append(q, ".db 'A', ',', ')'\n");
